@@ -28,6 +28,9 @@ import Gotree.Gen.C19Sentinels
     C19.writes rows             table (e): assignments to option variables after parsing (harness writes.go)
     C19.sentinels rows problems   table (g): literals the shared option glue compares option values with (harness sentinels.go)
     C19.io     kind name path flag runs   what "stdout" / "stdin" mean (Model/C19IO), see harness io.go
+    C19.fname  name path runs   the same text under input file names with various suffixes: --format omitted vs --format=newick (harness io.go)
+    C19.console name path first second after fresh   two commands in one console session vs the second alone (harness console.go)
+    C19.env    names problems runs   environment variables the command layer reads, set vs unset (harness env.go)
     C19.glue   set extra runs   option glue of the anchored commands (Model/C19Glue), see harness glueCases
     C19.format / C19.seed / C19.threads   the global options after parsing (Model/C19PreRun), see harness preRunCases
     C19.effect path template baseTemplate args baseArgs outcome baseOutcome
@@ -532,6 +535,90 @@ def handle (op : String) (f : List String) : Verdict :=
                " with the same text) differs from the run with the option omitted: " ++ (clip 300 o).quote)⟩)
       | _, _ => bad "C19.io: runs for the omitted option and for the documented default are needed"
     | _, _ => bad "C19.io fields"
+  | "fname", [name, path, runs] =>
+    -- runs: [file name, kind of text, outcome with --format omitted, outcome with the documented default --format=newick]
+    match unescape path, (splitTerm ";" runs).mapM parseStrList with
+    | some path, some rs =>
+      let parsed := rs.filterMap fun x => match x with
+        | [f, k, o0, o1] => some (f, k, o0, o1)
+        | _ => none
+      if parsed.length != rs.length || parsed.isEmpty then bad "C19.fname runs" else
+      let tags := ["nontrivial", "fname-" ++ name, "fname-names-" ++ toString parsed.length]
+      -- oracle (the property): under EVERY file name, --format omitted = the documented default spelled out
+      match parsed.filter fun (_, _, o0, o1) => o0 != o1 with
+      | (f, k, o0, o1) :: more =>
+        ⟨.oracle, tags, clip 1000 (path ++ " on the " ++ k ++ " text in a file named " ++ f.quote ++ ": --format omitted differs from the documented default --format=" ++
+          PreRun.defaultFormat ++ " spelled out: " ++ (clip 300 o0).quote ++ " vs " ++ (clip 300 o1).quote ++
+          (if more.isEmpty then "" else "; likewise for " ++ toString (more.map (·.1))))⟩
+      | [] =>
+        -- a text in the documented default format is a valid input whatever the file is called
+        match parsed.filter fun (_, k, o0, _) => PreRun.readable PreRun.defaultFormat k && !(runsOK o0) with
+        | (f, _, o0, _) :: _ => ⟨.oracle, tags, clip 700 (path ++ " with its documented default format fails on a Newick text in a file named " ++ f.quote ++ ": " ++ (clip 300 o0).quote)⟩
+        | [] =>
+          -- tie: the model (PersistentPreRun + readTrees/readTree) knows no dependence on the file NAME:
+          -- readable texts give one outcome, the others are refused
+          let first := (parsed.headD ("", "", "", "")).2.2.1
+          (match parsed.filter fun (_, k, o0, _) => if PreRun.readable PreRun.defaultFormat k then o0 != first else runsOK o0 with
+           | [] => ⟨.pass, tags, ""⟩
+           | (f, _, o0, _) :: _ => ⟨.tie, tags, clip 700 ("model of the readers: the outcome of " ++ path ++ " depends on the NAME of the input file (" ++ f.quote ++ "): " ++ (clip 300 o0).quote)⟩)
+    | _, _ => bad "C19.fname fields"
+  | "console", [name, path, first, second, after, fresh] =>
+    -- a history of two commands in ONE console session (cobrashell): what the second did vs the second alone
+    match unescape path, unescape first, unescape second, unescape after, unescape fresh with
+    | some path, some first, some second, some after, some fresh =>
+      let tags := ["nontrivial", "console-" ++ name]
+      if after == fresh then
+        (if fresh == "stdout:\n" then ⟨.tie, tags, "console: the second command of the history " ++ name ++ " printed nothing and wrote no file"⟩ else ⟨.pass, tags, ""⟩)
+      else
+        -- known findings seen through the console: cobrashell resets the VALUES of the flags, `Changed` survives, and the
+        -- cascades of rename / brlen setrand ask `Changed`.  persisted = the flags the first command gave, at their defaults.
+        let w1 := (first.splitOn " ").filter (· != "")
+        let w2 := (second.splitOn " ").filter (· != "")
+        let cls : String :=
+          if path == "gotree rename" then
+            match Rename.parseArgs (w1.drop 1), Rename.parseArgs (w2.drop 1) with
+            | some c1, some c2 =>
+              let persisted : Rename.CmdLine := c1.map fun (f, _) => (f, Rename.defaultOf f)
+              if Rename.changed c1 "regexp" && !(Rename.changed c2 "regexp") &&
+                 Rename.renameMode (persisted ++ c2) != Rename.renameMode c2 &&
+                 Rename.renameModeByValue (persisted ++ c2) == Rename.renameModeByValue c2
+              then "class=RenameRegexpGiven " else ""
+            | _, _ => ""
+          else if path == "gotree brlen setrand" then
+            match Setrand.parseArgs (w1.drop 2), Setrand.parseArgs (w2.drop 2) with
+            | some c1, some c2 =>
+              let persisted : Rename.CmdLine := c1.map fun (f, _) => (f, (Setrand.flagDefaults.lookup f).getD "")
+              match Setrand.behaviour (persisted ++ c2), Setrand.behaviour c2 with
+              | some b12, some b2 =>
+                if Rename.changed c1 "min-mean" && Rename.changed c1 "max-mean" && !(Rename.changed c2 "min-mean") && !(Rename.changed c2 "max-mean") &&
+                   b12.range.isSome && b2.range == none && b12.minLen == b2.minLen && b12.maxLen == b2.maxLen && b12.seed == b2.seed
+                then "class=SetrandMeanRangeGiven " else ""
+              | _, _ => ""
+            | _, _ => ""
+          else ""
+        ⟨.oracle, tags, clip 1200 (cls ++ "console: after `" ++ first ++ "`, `" ++ second ++ "` (options omitted = documented defaults) does not do what it does in a session of its own: " ++
+          (clip 400 after).quote ++ " vs " ++ (clip 400 fresh).quote)⟩
+    | _, _, _, _, _ => bad "C19.console fields"
+  | "env", [names, problems, runs] =>
+    -- environment variables the command layer reads; runs: [variable, value, invocation, outcome unset, outcome set]
+    match parseStrList names, parseStrList problems, (splitTerm ";" runs).mapM parseStrList with
+    | some ns, some probs, some rs =>
+      let parsed := rs.filterMap fun x => match x with
+        | [n, v, l, o0, o1] => some (n, v, l, o0, o1)
+        | _ => none
+      if parsed.length != rs.length then bad "C19.env runs" else
+      let tags := ["env-reads-" ++ toString ns.length] ++ tagIf (!ns.isEmpty) "nontrivial"
+      -- oracle (the property): with every option omitted a command uses the documented defaults, whatever the environment holds
+      match parsed.filter fun (_, _, _, o0, o1) => o0 != o1 with
+      | (n, v, l, o0, o1) :: _ =>
+        ⟨.oracle, tags, clip 1000 ("the environment variable " ++ n ++ "=" ++ v ++ " changes what the invocation `" ++ l ++ "` does with its options omitted — an omitted option does not mean its documented default: " ++
+          (clip 300 o0).quote ++ " (unset) vs " ++ (clip 300 o1).quote)⟩
+      | [] =>
+        if !probs.isEmpty then ⟨.tie, tags, "environment reads that cannot be named: " ++ "; ".intercalate probs⟩
+        else if !ns.isEmpty then
+          ⟨.tie, tags, "the command layer reads the environment (" ++ ", ".intercalate ns ++ "); the assumption 'no environment variable feeds an option' (checks/C19.json) no longer holds by construction; no invocation tried depends on it"⟩
+        else ⟨.pass, tags, ""⟩
+    | _, _, _ => bad "C19.env fields"
   | "roundtrip", [path, flag, typ, dflt, err, after] =>
     -- the model keeps values as the text Value.String() prints: Set(DefValue) must give DefValue back
     match unescape path, unescape flag, unescape dflt, unescape err, unescape after with
